@@ -52,8 +52,9 @@ Section H.
                                     || Z.eqb (dv_cstate d) DEV_CONNECTING) in
     let readable := negb (match pe_pending p with [] => true | _ => false end) || pe_closed p in
     mkPassin (pe_closed p) false false want_out readable
-             (match pe_pending p with [] => None | b => Some b end)
-             (Some (length (sd_to (dv d)))) (pe_finish_ok p) (pe_plans p).
+             (match pe_pending p with [] => None | b => Some (firstn (Z.to_nat (read_len d)) b) end)
+             (Some (length (sd_to (dv d)))) (pe_finish_ok p) (pe_plans p)
+             None.                    (* the stub transports have no preprocess method *)
 
   Definition apply_evs (p : peer) (evs : list ev) : peer :=
     fold_left (fun p e =>
@@ -141,6 +142,21 @@ Section H.
         end
     end.
 
+  (* a whole history: the outputs of the operations, in order *)
+  Fixpoint run (h : hstate) (ops : list hop) : outcome (hstate * list hout) :=
+    match ops with
+    | [] => Ok (h, [])
+    | op :: r =>
+      match hstep h op with
+      | Ok (h', o) =>
+        match run h' r with
+        | Ok (h'', os) => Ok (h'', o :: os)
+        | Exit c s => Exit c s | Abort s => Abort s | MemErr s => MemErr s | Hang s => Hang s
+        end
+      | Exit c s => Exit c s | Abort s => Abort s | MemErr s => MemErr s | Hang s => Hang s
+      end
+    end.
+
   (* report-and-clear of the bytes seen at the far ends *)
   Definition take_got (h : hstate) : hstate * list text :=
     (mkH (h_now h) (map (fun '(d, p) => (d, mkPeer (pe_pending p) (pe_closed p) (pe_plans p) (pe_finish_ok p) [])) (h_devs h)) (h_store h),
@@ -148,5 +164,5 @@ Section H.
 End H.
 
 Definition mk_device (name : text) (plugs : list plug) (scripts : list (Z * list stmt)) (timeout ping : Z) : device :=
-  mkDevice (mkSdev name plugs [] [] None false) scripts timeout ping DEV_NOT_CONNECTED false false [] 0 0 0 0 0.
+  mkDevice (mkSdev name plugs [] [] None false) scripts timeout ping DEV_NOT_CONNECTED false false [] 0 0 0 0 0 MIN_DEV_BUF.
 Definition peer0 : peer := mkPeer [] false [] true [].
